@@ -851,7 +851,7 @@ def random_history(rng, nops):
         m = rng.choice([1, 1, 2, 3])
         present = list(cells[m].nodes)
         op = rng.choice(ops)
-        a = {'resid': rng.randint(1, 9), 'cg': rng.randint(1, 9), 'tag': rng.choice('pqr')}
+        a = {'resid': rng.randint(0, 9), 'cg': rng.randint(0, 9), 'tag': rng.choice('pqr')}
         ev = {'ev': op, 'm': m}
         if op == 'AddNode':
             k = rng.choice(keys) if rng.random() < 0.7 or not present else max(present) + 1
